@@ -102,6 +102,10 @@ def build(env, name):
         return K.DiffRBF(length_scale=_ls(env, D)) + K.DiffRBF(length_scale=_ls(env, D, "m")), D
     if name == "RBF*Poly":
         return K.DiffRBF(length_scale=_ls(env, 3)) * K.DiffPolyKernel(gamma=env.par("g", "pos", hi="8"), order=2), 3
+    if name == "Linear**2":
+        return K.DiffLinearKernel() ** 2, 3
+    if name == "Linear**3":
+        return K.DiffLinearKernel() ** 3, 3
     if name == "RBF**2":
         return K.DiffRBF(length_scale=_ls(env, 3)) ** 2, 3
     if name == "(RBF+c)**3":
@@ -116,9 +120,9 @@ def build(env, name):
 
 KERNELS_QUICK = ["RBF", "RBF_iso", "RBF_fixed", "Linear", "Poly2fa", "Poly3ni", "Poly2fax", "ARBF2", "ARBF2L", "ARBF2S", "ARBFV2_2", "AddLLRBF_2", "AddRQ_2",
                  "SubsetRBF", "SubsetRBF_slice", "SubsetARBF", "SubsetPoly", "SpinSymRBF", "SpinSymPoly", "PartialRBF", "PartialRBF_dims", "Antisym",
-                 "Const*RBF", "RBF+RBF", "RBF*Poly", "RBF**2", "White+RBF", "Transform",
+                 "Const*RBF", "RBF+RBF", "RBF*Poly", "RBF**2", "Linear**2", "White+RBF", "Transform",
                  "ARBF2_iso", "ARBFV2_2_iso", "AddRQ_2_iso", "AddLLRBF_2_iso", "SubsetARBF_iso", "Poly2f_iso"]
-KERNELS_THOROUGH = KERNELS_QUICK + ["Poly3fa", "Poly2ni", "Poly3na", "ARBF1", "ARBF3", "ARBFV2_1", "AddLLRBF_1", "AddRQ_1", "SpinSymARBF", "(RBF+c)**3"]
+KERNELS_THOROUGH = KERNELS_QUICK + ["Poly3fa", "Poly2ni", "Poly3na", "ARBF1", "ARBF3", "ARBFV2_1", "AddLLRBF_1", "AddRQ_1", "SpinSymARBF", "(RBF+c)**3", "Linear**3"]
 
 
 def _theta(k):
@@ -171,6 +175,8 @@ def h_kernel(env, name, what):
                 env.equal("value_%d%d" % (i, j), kk[i, j], kref[i, j])
                 for f in range(d):
                     env.deriv("dk%d%d_dX%d%d" % (i, j, i, f), kk[i, j], ("X", (i, f)), dk[i, j, f])
+        # the returned gradient is defined (no division by a quantity that can vanish, e.g. by the base kernel value) on the whole domain
+        env.finite("gradient_defined_everywhere", [dk[i, j, f] for i in range(2) for j in range(2) for f in range(d)])
         # documented convention for Y=None: derivative w.r.t. the first argument only (Y held fixed at X)
         if "White" in name:
             return
